@@ -195,7 +195,7 @@ func c04Probe(a lib.Args, res *lib.Result) error {
 		case "qmark-versionid":
 			name = "a?versionId=x" + sp.sep + sp.up + sp.sep + name + "?versionId=null"
 		}
-		rawName := name                   // for XML bodies / headers the literal decoded form is used too
+		rawName := name // for XML bodies / headers the literal decoded form is used too
 		rawName = strings.NewReplacer("%2e", ".", "%2E", ".", "%2f", "/", "%2F", "/", "%5c", "\\", "%00", "\x00", "%252e", "%2e", "%252f", "%2f", "%c0%ae", "\xc0\xae").Replace(rawName)
 		req := gw.Req{Method: "GET", Path: "/abk/" + name}
 		switch c.op {
